@@ -15,8 +15,26 @@ theorem noShutdown_append {a b : List Effect} (ha : noShutdown a) (hb : noShutdo
   · exact ha e h
   · exact hb e h
 
-theorem pollFlush_noShutdown (w : Bytes) (t : Transport) : noShutdown (pollFlush w t).2.2.2 := by
-  fun_induction pollFlush w t <;> simp_all [noShutdown]
+theorem pollFlushFuel_noShutdown (n : Nat) (w : Bytes) (t : Transport) :
+    noShutdown (pollFlushFuel n w t).2.2.2 := by
+  induction n generalizing w t with
+  | zero => simp [pollFlushFuel, noShutdown]
+  | succ n ih =>
+    unfold pollFlushFuel
+    split
+    · split <;> simp [noShutdown]
+    · split
+      · have := ih [] t
+        simp_all [noShutdown]
+      · split
+        · simp [noShutdown]
+        · rename_i k ws _ _
+          have := ih (w.drop (min k w.length)) { t with writes := ws }
+          simp_all [noShutdown]
+      all_goals simp [noShutdown]
+
+theorem pollFlush_noShutdown (w : Bytes) (t : Transport) : noShutdown (pollFlush w t).2.2.2 :=
+  pollFlushFuel_noShutdown _ w t
 
 theorem awaitFlush_noShutdown (fuel : Nat) (w : Bytes) (t : Transport) (b : Budget) (effs : List Effect)
     (h : noShutdown effs) : noShutdown (awaitFlush fuel w t b effs).2.2.2.2 := by
